@@ -123,13 +123,16 @@ func c05ChainDFS(tier string) *engine.DFS {
 // c05BulkBody — third family: many handlers queued before the loop runs (1 .. 1025, around the powers of two where a
 // batch limit would sit), one of them posting a last one while the batch runs. Everything is posted by one goroutine
 // (the program posts K handlers, then runs the loop on the same goroutine, so the late Post is that goroutine's too):
-// the handlers must run exactly once each, in the order 0, 1, ..., K, however many poll calls the loop needs.
+// the handlers must run exactly once each, in the order they were posted, however many poll calls the loop needs. The handler that posts while the batch runs posts 1,
+// 2, or around 1024 and 3000 more.
 func c05BulkBody(x *engine.X) {
 	verifshim.Hooks = nil
 	ks := []int{1, 2, 63, 64, 65, 127, 128, 129, 130, 255, 256, 257, 300, 1024, 1025}
 	k := ks[x.Pick(len(ks), "handlers queued before the first poll")]
 	pollKind := x.Pick(4, "poll call: PollOne | RunOneFor(5ms) | RunOne | Poll")
-	lateFrom := []int{0, k / 2, k - 1}[x.Pick(3, "the handler that posts one more: first | middle | last")]
+	lateFrom := []int{0, k / 2, k - 1}[x.Pick(3, "the handler that posts more: first | middle | last")]
+	lates := []int{1, 2, 1023, 1024, 1025, 3000}
+	m := lates[x.Pick(len(lates), "handlers it posts while the batch runs")]
 	ioc, err := sonic.NewIO()
 	if err != nil {
 		engine.HarnessError("NewIO: %v", err)
@@ -141,8 +144,11 @@ func c05BulkBody(x *engine.X) {
 		if err := ioc.Post(func() {
 			order = append(order, i)
 			if i == lateFrom {
-				if err := ioc.Post(func() { order = append(order, k) }); err != nil {
-					x.FailSoft("post/bulk/Post-error", "Post from a posted handler: %v", err)
+				for j := 0; j < m; j++ {
+					j := j
+					if err := ioc.Post(func() { order = append(order, k+j) }); err != nil {
+						x.FailSoft("post/bulk/Post-error", "Post from a posted handler: %v", err)
+					}
 				}
 			}
 		}); err != nil {
@@ -156,7 +162,7 @@ func c05BulkBody(x *engine.X) {
 		x.Fail("post/Pending-inexact", "Pending()=%d after %d Posts and before any poll", got, k)
 	}
 	calls := 0
-	for ; calls < k+8 && len(order) < k+1; calls++ {
+	for ; calls < k+m+8 && len(order) < k+m; calls++ {
 		switch pollKind {
 		case 0:
 			ioc.PollOne()
@@ -168,13 +174,13 @@ func c05BulkBody(x *engine.X) {
 			ioc.Poll()
 		}
 	}
-	x.Note("k=%d poll=%d late post from handler %d: %d poll calls, %d handlers ran", k, pollKind, lateFrom, calls, len(order))
+	x.Note("k=%d poll=%d handler %d posts %d more: %d poll calls, %d handlers ran", k, pollKind, lateFrom, m, calls, len(order))
 	x.Nontrivial()
 	if x.Failed() {
 		return
 	}
-	if len(order) != k+1 {
-		x.Fail("post/handler-count", "%d handlers were posted, %d ran in %d poll calls", k+1, len(order), calls)
+	if len(order) != k+m {
+		x.Fail("post/handler-count", "%d handlers were posted (%d before the first poll, %d by handler %d while its batch ran), %d ran in %d poll calls; Pending()=%d Posted()=%d", k+m, k, m, lateFrom, len(order), calls, ioc.Pending(), ioc.Posted())
 	}
 	for i, id := range order {
 		if id != i {
